@@ -64,6 +64,25 @@ def run_codec_property(v, prop, ops, oracle, rule_extra="", known=None):
     cov = v.coverage
     if c.errors:
         cov.update({"evaluations": 0, "distinct_nontrivial": 0})
+        # a campaign given up because the implementation kept hanging still names the cases it hung
+        # on: when the operation that was running belongs to this property, that case is the failing input
+        if all(" hung " in e for e in c.errors):
+            hung = []
+            for x in c.cases:
+                for obs in (c.iobs, getattr(c, "iobs2", None) or {}):
+                    crash = obs.get((x.cid, "crash"))
+                    if crash and "rc=124" in crash:
+                        durings = re.findall(r"during=([\w?]+)", crash) or ["?"]
+                        if any(d == "?" or d in CRASH_OPS.get(prop, ()) for d in durings):
+                            hung.append((x, crash))
+            if hung:
+                hung.sort(key=lambda p: case_weight(p[0]))
+                x, crash = hung[0]
+                d = describe(c, x)
+                d.update({"kind": "failing-input", "why": "the implementation did not return within the time budget on this case (the model returns at once): %s" % crash,
+                          "failing_cases_in_run": len(hung), "seed": seed(), "tier": v.tier, "campaign_errors": c.errors[:3]})
+                v.violation("case", d)
+                return
         v.violation("campaign", {"kind": "correspondence", "correspondence": "the generated harness or the model driver could not be built/run against the current tree",
                                  "detail": [e[-3000:] for e in c.errors[:3]]}, no_input=True)
         return
